@@ -10,3 +10,6 @@ META = {
     "technique": 'Coq invariant proof over a trace-accepting pool automaton + in-Coq trace validation of real scheduler runs + closure oracle',
     "design_ref": "5/C01",
 }
+# nested mixed AND/OR trigger expressions with some slow jobs: the atoms of one expression become true at
+# well separated times, so a submission before the expression is true shows
+STREAMS.append(SchedStream('C01', name="sched-nest", feat={'nest': True, 'slow': True}, n_quick=28, n_thorough=600))
